@@ -52,3 +52,19 @@ Print Assumptions read_back.
 Theorem model_meets_spec : forall inp, in_range inp -> spec_ok (model_case fixed inp) = true.
 Proof. exact model_meets_spec_l. Qed.
 Print Assumptions model_meets_spec.
+
+(* The stored payload of the k-th span of a Zipkin request is that span's own text, in either framing ... *)
+Theorem zipkin_payload_is_own_text : forall nd es rows,
+  zipkin_decode fixed nd es = Some rows ->
+  forall k sr, nth_error rows k = Some sr -> t_payload (fst sr) = PRef (N.of_nat k) /\ t_ptype (fst sr) = 1.
+Proof. exact SpansProofs.zipkin_payload_is_own_text. Qed.
+Print Assumptions zipkin_payload_is_own_text.
+
+(* ... and neither the model's prediction nor the oracle's verdict for a request depends on how its body was cut into
+   Reads (one piece, byte by byte, network-sized segments): the delivery is recorded in a case but is not an argument of
+   the decoders or of spec_ok.  True by construction; the check compares this one expectation with observations made
+   under every delivery, which is what exposes a decoder that retains a slice of its read buffer. *)
+Theorem segmentation_irrelevant : forall c d,
+  model_mismatch (with_delivery c d) = model_mismatch c /\ spec_violation (with_delivery c d) = spec_violation c.
+Proof. exact segmentation_irrelevant_l. Qed.
+Print Assumptions segmentation_irrelevant.
